@@ -13,8 +13,9 @@ def strip_ty(t):
     while True:
         t0 = t
         t = re.sub(r"^&(?:'[a-z_]+ )?(?:mut )?", "", t).strip()
-        if t.startswith("std::boxed::Box<") and t.endswith(">"):
-            t = t[len("std::boxed::Box<"):-1]
+        for bx in ("std::boxed::Box<", "alloc::boxed::Box<"):
+            if t.startswith(bx) and t.endswith(">"):
+                t = t[len(bx):-1]
         if t == t0:
             break
     return norm_path(t)
@@ -24,12 +25,8 @@ def ty_is(tystr, adt_path):
     """type strings use rustc's display paths (crate-relative for local types, shortest visible path for
     re-exported foreign ones); ADT paths are canonical: equal if the display segments are a subsequence of
     the canonical ones ending in the same name (and starting in the same crate when qualified)"""
-    t = strip_ty(tystr).split("::")
-    a = adt_path.split("::")
-    if t[-1] != a[-1]:
-        return False
-    it = iter(a)
-    return all(seg in it for seg in t)
+    # type strings are canonical (crate-qualified definition paths), like ADT paths
+    return strip_ty(tystr) == adt_path
 
 
 def ty_mentions(tystr, names):
